@@ -647,11 +647,8 @@ func (r *proxyStreamReceiver) Run(
 		r.shardManager.SetLocalReceiverCancelFunc(r.sourceShardID, cancel)
 		// Register receiver for watermark propagation to late-registering shards
 		r.shardManager.RegisterActiveReceiver(r.sourceShardID, r)
-		defer func() {
-			r.shardManager.RemoveLocalAckChan(r.sourceShardID, r.ackChan)
-			r.shardManager.RemoveLocalReceiverCancelFunc(r.sourceShardID)
-			r.shardManager.UnregisterActiveReceiver(r.sourceShardID)
-		}()
+		// Remove only what this incarnation registered: a successor that has taken the shard over owns the entries now.
+		defer r.shardManager.RemoveLocalReceiver(r.sourceShardID, r.ackChan)
 	}
 
 	// init aggregation state
